@@ -661,7 +661,10 @@ func (r *Run) asTerm(v Val) (Term, bool) {
 			}
 			fn := "addr." + sanitize(l.Comp)
 			r.ctx.DeclareOnce(fn, fmt.Sprintf("(declare-fun %s (Int) Int)", fn))
-			return app(SInt, fn, l.Idx), true
+			a := app(SInt, fn, l.Idx)
+			// the address of a field of an existing object is not nil
+			r.ctx.DeclareOnce(a.S+"!pos", "(assert (> "+a.S+" 0))")
+			return a, true
 		case LElem:
 			fn := "eaddr." + sanitize(l.Comp)
 			r.ctx.DeclareOnce(fn, fmt.Sprintf("(declare-fun %s (Int Int) Int)", fn))
